@@ -245,3 +245,24 @@ Definition all_groups (eps : float) (tt : tytree) (objs : objects) (a : action) 
 
 Definition successor (eps : float) (tt : tytree) (objs : objects) (a : action) (args : list name) (s : state) : state :=
   succ s (all_groups eps tt objs a args s).
+
+(* ---------- consistency of simultaneously firing effects (the properties quantify over consistent ones) ---------- *)
+Definition adds_of (g : list gprim) : list atom := flat_map (fun x => match x with GAdd a => [a] | _ => [] end) g.
+Definition dels_of (g : list gprim) : list atom := flat_map (fun x => match x with GDel a => [a] | _ => [] end) g.
+Definition sets_of (g : list gprim) : list atom := flat_map (fun x => match x with GSet a _ => [a] | _ => [] end) g.
+
+Fixpoint no_dup_atoms (l : list atom) : bool :=
+  match l with [] => true | a :: r => negb (atom_in a r) && no_dup_atoms r end.
+
+(* no fluent is assigned twice; no atom is added by one group and deleted by another *)
+Fixpoint cross_ok (groups : list (list gprim)) : bool :=
+  match groups with
+  | [] => true
+  | g :: rest =>
+      forallb (fun h => forallb (fun a => negb (atom_in a (dels_of h))) (adds_of g) &&
+                        forallb (fun a => negb (atom_in a (adds_of h))) (dels_of g)) rest
+      && cross_ok rest
+  end.
+
+Definition consistent (groups : list (list gprim)) : bool :=
+  no_dup_atoms (flat_map sets_of groups) && cross_ok groups.
